@@ -165,7 +165,7 @@ theorem invalidateLocation_acc (cfg : Cfg) (req : Req) (respH : Header) (hdr : S
           obtain ⟨a1, a2, d1, ha, hrun1, hacc1, _⟩ := delMany_acc _ _ _ _ _ h1
           obtain ⟨b1, b2, d2, hb, hrun2, hacc2, _⟩ := delOnce_acc _ _ _ _ _ hrun1
           subst ha; subst hb
-          refine ⟨Step.getRefs g.key a :: (a1 ++ b1), b2, d2,
+          refine ⟨Step.getRefs (resolveLoc req g).key a :: (a1 ++ b1), b2, d2,
             by simp [List.append_assoc], hrun2, ?_⟩
           have := accounts_trans hacc1 hacc2
           refine ⟨this.1, fun x hx => ?_⟩
